@@ -12,7 +12,7 @@ INV_CKPT = ["RestoreOK", "FilesSafe", "LiveTablesExist", "SeqOK"]
 def consts(**kw):
     # conc 0 of the replayer uses 2-byte keys and values: a put accounts 17+2+2 bytes, a delete 17+2
     c = dict(Keys={1, 2, 3}, Vals={1, 2}, Prefixes="@{{1, 2}, {1, 2, 3}}", MemCap=45, PutSz=21, DelSz=19, L0Trigger=2,
-             MaxOps=5, MaxReads=1, MaxCkpt=0, MaxReopen=0, MaxRetain=0, MaxGc=0, MaxLen=1000)
+             MaxOps=5, MaxReads=1, MaxCkpt=0, MaxReopen=0, MaxRetain=0, MaxGc=0, MaxFail=0, MaxLen=1000)
     for d in DEVS:
         c[d] = False
     c.update(kw)
@@ -91,6 +91,9 @@ SCRIPTS = {
     # a retention notice naming only checkpoint 1 arrives while checkpoint 2 is being saved (#28)
     "retain-during-save": [_w(1, 1), _s("Checkpoint"), _s("SaveWal", id=1), _s("SaveDoc", id=1), _w(2, 1), _s("Checkpoint"), _s("Retain", ids="{1}"),
                            _s("SaveWal", id=2), _s("SaveDoc", id=2), _w(3, 1), _s("Checkpoint"), _s("SaveWal", id=3), _s("SaveDoc", id=3), _s("Retain", ids="{3}")],
+    # a retention update whose document save fails, then a successful one: the dropped checkpoint's WAL must go
+    "retain-save-fails": [_w(1, 1), _s("Checkpoint"), _s("SaveWal", id=1), _s("SaveDoc", id=1), _w(2, 1), _s("Checkpoint"), _s("SaveWal", id=2),
+                          _s("SaveDoc", id=2), _s("RetainFail", ids="{2}"), _s("GcRun"), _s("Retain", ids="{2}"), _s("GcRun")],
     # retention drops checkpoint 1: its WAL goes, checkpoint 2 keeps restoring
     "retain-newest": [_w(1, 1), _s("Checkpoint"), _s("SaveWal", id=1), _s("SaveDoc", id=1), _w(2, 1), _w(3, 1), _w(1, 2), _s("FlushStart"),
                       _s("FlushSwap"), _s("Checkpoint"), _s("SaveWal", id=2), _s("SaveDoc", id=2), _s("Retain", ids="{2}"), _s("GcRun"),
@@ -108,8 +111,8 @@ def _tla_step(st):
         return "ScanBegin(%s)" % st["p"]
     if a in ("SaveWal", "SaveDoc"):
         return "(\\E sv \\in saves : sv.id = %d /\\ %s(sv))" % (st["id"], a)
-    if a == "Retain":
-        return "Retain(%s)" % st["ids"]
+    if a in ("Retain", "RetainFail"):
+        return "%s(%s)" % (a, st["ids"])
     if a == "Reopen":
         return "Reopen(%d, %s)" % (st["id"], "TRUE" if st["crash"] else "FALSE")
     return a
@@ -129,7 +132,7 @@ def elaborate(name, script, consts_):
 
 
 def run_scripts(c, check_restore):
-    cs = consts(MaxOps=12, MaxReads=6, MaxCkpt=3, MaxReopen=2, MaxRetain=2, MaxGc=4)
+    cs = consts(MaxOps=12, MaxReads=6, MaxCkpt=3, MaxReopen=2, MaxRetain=2, MaxGc=4, MaxFail=1)
     behs = []
     for name, sc in SCRIPTS.items():
         b, r = elaborate(name, sc, cs)
@@ -146,7 +149,7 @@ def trace_arm(c, runs, ops, seed, props=("C07", "C08")):
     validate them with DkvAbsTrace.tla; a rejected Get/Scan line is a C07 violation, a Restore line a C08 one"""
     payload = dict(property=c.prop, seed=seed, config=dict(Ops=ops, Chunk=20), behaviours=[[{"run": i}] for i in range(runs)])
     res = vlib.run_harness("dkvtrace", payload, timeout=3000)
-    traces = res.pop("traces", [])
+    traces = [t for t in res.pop("traces", []) if isinstance(t, list)]
     c.add_harness(res, payload, "dkvtrace recording (%d runs x %d ops, free-running background)" % (runs, ops))
     consts_ = dict(NKeys=12, NVals=4, MaxOps=0)
     # validate in chunks of <= 25k events
@@ -193,9 +196,26 @@ def trace_arm(c, runs, ops, seed, props=("C07", "C08")):
 def replay_trace(c, payload):
     """--replay of a rejected recorded run: validate the stored events again (they are what the real code did)"""
     events = payload["run_events"]
-    ok, at, tr = vlib.validate_trace("DkvAbsTrace", dict(NKeys=12, NVals=4, MaxOps=0), events)
+    ok, at, tr = vlib.validate_trace("DkvAbsTrace", dict(NKeys=payload.get("NKeys", 12), NVals=4, MaxOps=0), events)
     c.add_tlc(tr, "DkvAbsTrace validation of the stored run", must_hold=False)
     if not ok:
         c.add_violation("stored dkv.DB trace rejected at event %d: %s" % (at, json.dumps(events[at - 1])[:300]), payload)
     else:
         c.traces += 1
+
+
+def bulk_arm(c, n):
+    """one bulk run (2n keys, two generations of large overlapping tables: bloom false positives, sparse index) validated by DkvAbsTrace"""
+    payload = dict(property=c.prop, seed=c.seed, config=dict(Chunk=1), behaviours=[[{"bulk": n}]])
+    res = vlib.run_harness("dkvtrace", payload, timeout=900)
+    tr = [t for t in res.pop("traces", []) if isinstance(t, dict)]
+    c.add_harness(res, payload, "dkvtrace bulk run (%d keys)" % (2 * n))
+    for t in tr:
+        events = t["events"]
+        ok, at, r = vlib.validate_trace("DkvAbsTrace", dict(NKeys=t["bulk"], NVals=4, MaxOps=0), events, name="DkvAbsTrace-bulk", timeout=900)
+        c.add_tlc(r, "DkvAbsTrace validation of the bulk run (%d events)" % len(events), must_hold=False)
+        if ok:
+            c.traces += 1
+        elif c.prop == "C07":
+            c.add_violation("bulk dkv.DB trace rejected by DkvAbsTrace.tla at event %d: %s" % (at, json.dumps(events[at - 1])[:200]),
+                            dict(mode="dkvtrace", seed=c.seed, run_events=events[:at], rejected_index=at - 1, NKeys=t["bulk"]))
